@@ -2,6 +2,7 @@ package harness
 
 import (
 	"encoding/json"
+	"strings"
 	"math/rand/v2"
 
 	"github.com/google/uuid"
@@ -124,7 +125,7 @@ func applyOp(env *Env, w *ShardWorld, m *RefShard, i int, op Op) bool {
 			return false
 		}
 		if !rejected && err != nil {
-			env.Violate("spurious-error", "insert-error", "%s: valid insert failed: %v", where(), err)
+			env.Violate("spurious-error", "insert-error:"+errSig(err), "%s: valid insert failed: %v", where(), err)
 			return false
 		}
 	case "update":
@@ -139,7 +140,7 @@ func applyOp(env *Env, w *ShardWorld, m *RefShard, i int, op Op) bool {
 			return false
 		}
 		if !rejected && err != nil {
-			env.Violate("spurious-error", "update-error", "%s: valid update failed: %v", where(), err)
+			env.Violate("spurious-error", "update-error:"+errSig(err), "%s: valid update failed: %v", where(), err)
 			return false
 		}
 		if !rejected && !sameIDSet(ids, want) {
@@ -151,7 +152,7 @@ func applyOp(env *Env, w *ShardWorld, m *RefShard, i int, op Op) bool {
 		want := m.Delete(op.IDs)
 		env.Stat("delete", 1)
 		if err != nil {
-			env.Violate("spurious-error", "delete-error", "%s: delete failed: %v", where(), err)
+			env.Violate("spurious-error", "delete-error:"+errSig(err), "%s: delete failed: %v", where(), err)
 			return false
 		}
 		if !sameIDSet(ids, want) {
@@ -169,6 +170,19 @@ func applyOp(env *Env, w *ShardWorld, m *RefShard, i int, op Op) bool {
 		w.EvictCaches()
 	}
 	return true
+}
+
+// errSig is the innermost message of a wrapped error chain with digits removed.
+func errSig(err error) string {
+	msg := err.Error()
+	if i := strings.LastIndex(msg, ": "); i >= 0 {
+		msg = msg[i+2:]
+	}
+	msg = stripDigits(msg)
+	if len(msg) > 48 {
+		msg = msg[:48]
+	}
+	return msg
 }
 
 func itoa(i int) string {
